@@ -3,6 +3,8 @@ package walletsim
 import (
 	"encoding/binary"
 	"fmt"
+	"github.com/btcsuite/btcd/btcec/v2"
+	"github.com/btcsuite/btcd/btcutil"
 	"time"
 
 	"github.com/btcsuite/btcd/chaincfg"
@@ -81,6 +83,44 @@ func NewScenario(t *rapid.T, prop string, c *evid.Case, blocks int, extraAccount
 	}
 	c.Logf("style=%d chain=%d blocks, accounts per scope=%d, %d own addresses", f.Style, blocks, 1+extraAccounts, len(s.Book.List))
 	return s
+}
+
+// ImportKeys imports n private keys (drawn scopes) into the wallet: their
+// addresses belong to the imported-address account of their scope, which can
+// be funded and spent from like any other account.
+func (s *Scenario) ImportKeys(n int) {
+	for i := 0; i < n; i++ {
+		sc := waddrmgr.DefaultKeyScopes[rapid.IntRange(0, 3).Draw(s.T, "importScope")]
+		raw := make([]byte, 32)
+		raw[0], raw[1], raw[2] = 0x31, byte(i+1), byte(len(s.Book.List))
+		copy(raw[3:], s.F.Seed[:20])
+		priv, _ := btcec.PrivKeyFromBytes(raw)
+		wif, err := btcutil.NewWIF(priv, s.F.Params, true)
+		if err != nil {
+			s.F.Inconclusive("NewWIF: %v", err)
+		}
+		addrStr, err := s.F.W.ImportPrivateKey(sc, wif, &waddrmgr.BlockStamp{Hash: *s.F.Params.GenesisHash}, false)
+		if err != nil {
+			s.F.Violation("ImportPrivateKey(%v) on an unlocked wallet failed: %v", sc, err)
+		}
+		addr, err := btcutil.DecodeAddress(addrStr, s.F.Params)
+		if err != nil {
+			s.F.Violation("ImportPrivateKey returned the undecodable address %q: %v", addrStr, err)
+		}
+		own := &OwnAddr{Addr: addr, Scope: sc, Account: waddrmgr.ImportedAddrAccount}
+		s.Book.Add(own)
+		has := false
+		for _, a := range s.Accounts[sc] {
+			has = has || a == waddrmgr.ImportedAddrAccount
+		}
+		if !has {
+			s.Accounts[sc] = append(s.Accounts[sc], waddrmgr.ImportedAddrAccount)
+		}
+		s.C.Logf("imported key into %v: %s", sc, own.Addr)
+	}
+	if n > 0 {
+		s.C.Class("imported-keys")
+	}
 }
 
 // Tick advances the harness clock used for block timestamps.
